@@ -86,13 +86,14 @@ func (a *Atom) Equals(b *Atom) bool {
 	if (a.Map == nil) != (b.Map == nil) {
 		return false
 	}
-	switch {
-	case a.Scalar != nil:
-		return *a.Scalar == *b.Scalar
-	case a.List != nil:
-		return a.List.Equals(b.List)
-	case a.Map != nil:
-		return a.Map.Equals(b.Map)
+	if a.Scalar != nil && *a.Scalar != *b.Scalar {
+		return false
+	}
+	if a.List != nil && !a.List.Equals(b.List) {
+		return false
+	}
+	if a.Map != nil && !a.Map.Equals(b.Map) {
+		return false
 	}
 	return true
 }
